@@ -139,15 +139,32 @@ theorem C18_one_definition_per_type (s : Schema) :
     (moduleOf s).types.map (·.name) = s.types.map (fun t => pyName t.name) := by
   simp [moduleOf, typeOf, List.map_map, Function.comp_def]
 
+theorem stem_append_underscore (a : String) : stem (a ++ "_") = stem a := by
+  simp [stem, String.toList_append]
+
+theorem append_underscore_cancel (a b : String) (h : a ++ "_" = b ++ "_") : a = b := by
+  have := congrArg String.toList h
+  simp [String.toList_append] at this
+  exact String.toList_inj.mp this
+
 /-- No emitted identifier is a Python keyword: for every EXPRESS identifier `n`, `pyName n` is not one of the Python
-keywords that are legal EXPRESS identifiers (`Spec.pyKeywords`).  Depends on the regenerated `keyword_list[]`. -/
+keywords that are legal EXPRESS identifiers (`Spec.pyKeywords`) — whichever of the two comparisons `is_python_keyword`
+uses (regenerated `escapesStems`).  Depends on the regenerated `keyword_list[]`. -/
 theorem C18_names_legal (n : String) : pyName n ∉ Spec.pyKeywords := by
-  have h1 : ∀ k ∈ pythonKeywords, k ++ "_" ∉ Spec.pyKeywords := by decide
   have h2 : ∀ k ∈ Spec.pyKeywords, k ∈ pythonKeywords := by decide
+  have h3 : ∀ k ∈ Spec.pyKeywords, stem k = k := by decide
+  have h4 : ∀ k ∈ Spec.pyKeywords, k.toList.getLast? ≠ some '_' := by decide
+  have hl : (n ++ "_").toList.getLast? = some '_' := by simp [String.toList_append]
   unfold pyName
   split
-  · rename_i hm; exact h1 n hm
-  · rename_i hm; exact fun hk => hm (h2 n hk)
+  · exact fun hk => h4 _ hk hl
+  · rename_i hm
+    intro hk
+    apply hm
+    unfold keywordKey
+    split
+    · rw [h3 n hk]; exact h2 n hk
+    · exact h2 n hk
 
 /-- The emitted module imports the runtime package that is bundled (`src/exp2python/python/stepcode`). -/
 theorem C18_imports_bundled_package (s : Schema) : (moduleOf s).package = "stepcode" := by
@@ -234,17 +251,47 @@ theorem C18_legacy_ctor_diamond_witness :
 
 /-! ## the escaping is injective up to the trailing underscore -/
 
-/-- Two different identifiers get different Python names, except an escaped keyword `k` and a declared identifier
-`k_` (e.g. `class` and `class_`), which collide. -/
+/-- Two different identifiers get different Python names — always when `is_python_keyword` compares stems (regenerated
+`escapesStems`, fixes/C18-13); with the plain `strcmp` the one exception is an escaped keyword `k` and a declared
+identifier `k_` (e.g. `class` and `class_`), which collide. -/
 theorem C18_escaping_injective (a b : String) (h : pyName a = pyName b) :
-    a = b ∨ (a ∈ pythonKeywords ∧ b = a ++ "_") ∨ (b ∈ pythonKeywords ∧ a = b ++ "_") := by
-  have hk : ∀ x ∈ pythonKeywords, ∀ y ∈ pythonKeywords, x ++ "_" = y ++ "_" → x = y := by decide
+    a = b ∨ (escapesStems = false ∧ ((a ∈ pythonKeywords ∧ b = a ++ "_") ∨ (b ∈ pythonKeywords ∧ a = b ++ "_"))) := by
   unfold pyName at h
-  by_cases ha : a ∈ pythonKeywords <;> by_cases hb : b ∈ pythonKeywords
-  · simp only [ha, hb, if_true] at h; exact Or.inl (hk a ha b hb h)
-  · simp only [ha, hb, if_true, if_false] at h; exact Or.inr (Or.inl ⟨ha, h.symm⟩)
-  · simp only [ha, hb, if_true, if_false] at h; exact Or.inr (Or.inr ⟨hb, h⟩)
-  · simp only [ha, hb, if_false] at h; exact Or.inl h
+  cases hs : escapesStems with
+  | false =>
+    have hkey : ∀ x, keywordKey x = x := by intro x; simp [keywordKey, hs]
+    rw [hkey, hkey] at h
+    by_cases ha : a ∈ pythonKeywords <;> by_cases hb : b ∈ pythonKeywords
+    · rw [if_pos ha, if_pos hb] at h; exact Or.inl (append_underscore_cancel a b h)
+    · rw [if_pos ha, if_neg hb] at h; exact Or.inr ⟨rfl, Or.inl ⟨ha, h.symm⟩⟩
+    · rw [if_neg ha, if_pos hb] at h; exact Or.inr ⟨rfl, Or.inr ⟨hb, h⟩⟩
+    · rw [if_neg ha, if_neg hb] at h; exact Or.inl h
+  | true =>
+    left
+    have hkey : ∀ x, keywordKey x = stem x := by intro x; simp [keywordKey, hs]
+    rw [hkey, hkey] at h
+    by_cases ha : stem a ∈ pythonKeywords <;> by_cases hb : stem b ∈ pythonKeywords
+    · rw [if_pos ha, if_pos hb] at h; exact append_underscore_cancel a b h
+    · rw [if_pos ha, if_neg hb] at h
+      exact absurd (by rw [← h, stem_append_underscore]; exact ha) hb
+    · rw [if_neg ha, if_pos hb] at h
+      exact absurd (by rw [h, stem_append_underscore]; exact hb) ha
+    · rw [if_neg ha, if_neg hb] at h; exact h
+
+/-- With the stem comparison the escaping is injective outright: one class per entity and one definition per type also
+under their emitted names. -/
+theorem C18_escaping_injective_when_stems_compared (hs : escapesStems = true) (a b : String) (h : pyName a = pyName b) :
+    a = b := by
+  rcases C18_escaping_injective a b h with h | ⟨hf, _⟩
+  · exact h
+  · rw [hs] at hf; cases hf
+
+/-- The `strcmp` comparison (before fixes/C18-13) maps `class` and `class_` to the same Python name: two entities (or
+types) so called end up as one class. -/
+theorem C18_legacy_escaping_collision_witness :
+    (if "class" ∈ pythonKeywords then "class" ++ "_" else "class") = (if "class_" ∈ pythonKeywords then "class_" ++ "_" else "class_") ∧
+    "class" ≠ "class_" := by
+  decide
 
 /-- hypotheses are satisfiable -/
 example : bases shallowDeep ⟨"c", ["q", "p"], []⟩ = ["q", "p"] :=
@@ -667,11 +714,12 @@ theorem C18_setter_checks_declared_type (a : Attr) (h : isParam a = true) :
 
 /-- An enumeration is emitted under its escaped name with one item per declared item, every item escaped on its own (an
 item that is a Python keyword gets the underscore whatever the enumeration is called), none of them a keyword; distinct
-items stay distinct unless one is a keyword `k` and another is literally `k_`. -/
+items stay distinct (with the `strcmp` comparison: unless one is a keyword `k` and another is literally `k_`). -/
 theorem C18_enumeration_items_mirrored (n : String) (items : List String) :
     typeOf ⟨n, .enum items⟩ = ⟨pyName n, .enum (items.map pyName)⟩ ∧
     (∀ i ∈ items.map pyName, i ∉ Spec.pyKeywords) ∧
-    (∀ a ∈ items, ∀ b ∈ items, pyName a = pyName b → a = b ∨ (a ∈ pythonKeywords ∧ b = a ++ "_") ∨ (b ∈ pythonKeywords ∧ a = b ++ "_")) := by
+    (∀ a ∈ items, ∀ b ∈ items, pyName a = pyName b →
+      a = b ∨ (escapesStems = false ∧ ((a ∈ pythonKeywords ∧ b = a ++ "_") ∨ (b ∈ pythonKeywords ∧ a = b ++ "_")))) := by
   refine ⟨rfl, ?_, fun a _ b _ h => C18_escaping_injective a b h⟩
   intro i hi
   obtain ⟨x, _, rfl⟩ := List.mem_map.mp hi
